@@ -45,12 +45,26 @@ def cases(tier, rng):
     for carrier, scert in (("plain-socket", "none"), ("plain-ws", "none"), ("plain-kcp", "none"), ("starttls-socket", "good"), ("starttls-ws", "good"), ("starttls-kcp", "good")):
         line = "c05 %s %s 0 none 0 1" % (carrier, scert)
         cs.append({"line": line, "key": line, "model": False, "tags": {"cert": scert, "ins": 0, "must": 1, "script": "must-secure-upstream", "carrier": carrier}})
+    # a UDP upstream whose URL carries a shared secret: the packet cipher is not TLS - with security required the session must be
+    # upgraded (server with a certificate) or refused (server without)
+    for scert in ("none", "good"):
+        line = "c05s abc abc %s 1" % scert
+        cs.append({"line": line, "key": line, "model": False, "tags": {"cert": scert, "ins": 1, "must": 1, "script": "must-secure-udp-secret", "carrier": "udp-secret"}})
     return cs
 
 
 def oracle(case, impl):
     t = case["tags"]
     p = impl.split()
+    if t["script"] == "must-secure-udp-secret":
+        if not p or p[0] != "connect":
+            return [("crash", "scenario did not complete: %s -> %s" % (case["line"], impl[:100]))]
+        tech = p[p.index("tech") + 1] if "tech" in p else "?"
+        if p[1] == "ok" and (t["cert"] == "none" or tech != "tls"):
+            return [("required-security-degraded;script=must-secure-upstream;carrier=udp-secret", "security is required and the upstream only has the shared-secret packet cipher (protection reported: %s), yet application data was carried: %s" % (tech, impl))]
+        if t["cert"] == "good" and p[1] != "ok":
+            return [("good-peer-refused;carrier=udp-secret", "a server that offers StartTLS was refused by a client that requires security: " + impl)]
+        return []
     if t["script"] == "tls-endpoint":
         if "wire" not in p:
             return [("crash", "a TLS endpoint could not be started or probed: %s -> %s" % (t["scheme"], impl[:100]))]
